@@ -807,6 +807,15 @@ impl Database {
                 let table = schema.get_table_mut(table_name).unwrap();
                 let column = Self::ast_column_to_schema_column(col_def)?;
                 let col_name = column.name().to_string();
+                ensure!(
+                    !table
+                        .columns()
+                        .iter()
+                        .any(|c| c.name().eq_ignore_ascii_case(&col_name)),
+                    "column '{}' already exists in table '{}'",
+                    col_name,
+                    table_name
+                );
                 table.add_column(column);
                 format!("added column '{}'", col_name)
             }
